@@ -886,6 +886,65 @@ Fixpoint subst_go (pat rep : text) (skip : nat) (s : text) : text :=
   end.
 Definition subst (pat rep : text) : text -> text := subst_go pat rep 0.
 
+(** strip [-trailing-space | -trailing-new-lines] (strip_space.py): three streaming algorithms over the line iterator.
+    [is_space]: the characters for which Python's str.isspace / strip() hold. *)
+Definition is_space (c : char) : bool :=
+  ((9 <=? c) && (c <=? 13)) || ((28 <=? c) && (c <=? 32)) || (c =? 133) || (c =? 160) || (c =? 5760) ||
+  ((8192 <=? c) && (c <=? 8202)) || (c =? 8232) || (c =? 8233) || (c =? 8239) || (c =? 8287) || (c =? 12288).
+Definition str_isspace (l : text) : bool := match l with [] => false | _ => forallb is_space l end.
+Fixpoint lstrip (l : text) : text := match l with [] => [] | c :: l' => if is_space c then lstrip l' else l end.
+Definition rstrip (l : text) : text := rev (lstrip (rev l)).
+Fixpoint drop_space_lines (ls : list text) : list text :=
+  match ls with [] => [] | l :: ls' => if str_isspace l then drop_space_lines ls' else ls end.
+
+(** _strip_space *)
+Fixpoint strip_loop (cur : text) (skipped : list text) (ls : list text) : list text :=
+  match ls with
+  | [] => [rstrip cur]                                          (* yield non_empty_line.rstrip() *)
+  | l :: ls' =>
+      if str_isspace l then strip_loop cur (skipped ++ [l]) ls'
+      else cur :: skipped ++ strip_loop l [] ls'
+  end.
+Definition lf_strip : lfun := fun ls =>
+  match drop_space_lines ls with
+  | [] => []
+  | l :: rest => strip_loop (lstrip l) [] rest
+  end.
+
+(** _strip_trailing_space *)
+Fixpoint sts_loop (cur : text) (skipped : list text) (ls : list text) : list text :=
+  match ls with
+  | [] => match rstrip cur with [] => [] | m => [m] end      (* if mb_last != '': yield mb_last *)
+  | l :: ls' =>
+      if str_isspace l then sts_loop cur (skipped ++ [l]) ls'
+      else cur :: skipped ++ sts_loop l [] ls'
+  end.
+Definition lf_strip_trailing_space : lfun := fun ls =>
+  match ls with [] => [] | l :: rest => sts_loop l [] rest end.
+
+(** _strip_trailing_new_lines *)
+Fixpoint stn_loop (cur : text) (n : nat) (ls : list text) : list text :=
+  match ls with
+  | [] =>
+      match (if N.eqb (last cur 0) NL then removelast cur else cur) with
+      | [] => []                                               (* if last_line != '': yield last_line *)
+      | m => [m]
+      end
+  | l :: ls' =>
+      if text_eqb l [NL] then stn_loop cur (S n) ls'
+      else cur :: repeat [NL] n ++ stn_loop l 0 ls'
+  end.
+Definition lf_strip_trailing_new_lines : lfun := fun ls =>
+  match ls with [] => [] | l :: rest => stn_loop l 0 rest end.
+
+Inductive strip_variant := StripBoth | StripTrailingSpace | StripTrailingNewLines.
+Definition lf_strip_of (v : strip_variant) : lfun :=
+  match v with
+  | StripBoth => lf_strip
+  | StripTrailingSpace => lf_strip_trailing_space
+  | StripTrailingNewLines => lf_strip_trailing_new_lines
+  end.
+
 (** External programs used by the correspondence cases (functions on the bytes of valid texts). *)
 (** a program source whose program prints the same for every run *)
 Definition det (g : raw -> raw) : nat -> raw -> raw := fun _ => g.
@@ -904,7 +963,8 @@ Inductive tatom :=
 | TUpper                                (* char-case -to-upper: _CaseConverter *)
 | TFilter (p : N -> text -> bool)       (* filter LINE-MATCHER: _FilterByLineMatcher *)
 | TRun (g : raw -> raw)                 (* run PROGRAM (no -stdin): transformed_by_program *)
-| TReplace (sub : text -> text).        (* replace REGEX REPLACEMENT: _ReplaceStringTransformer (no line selector) *)
+| TReplace (sub : text -> text)         (* replace REGEX REPLACEMENT: _ReplaceStringTransformer (no line selector) *)
+| TStrip (v : strip_variant).           (* strip [-trailing-space | -trailing-new-lines]: _StripWhiteSpaceTransformer *)
 
 (** Chains nested in chains - ( ( T1 | identity ) | T2 ), the transformation of a program symbol followed by the
     transformation given where it is referenced, the transformation of the program of [run] - : a tree of
@@ -934,6 +994,7 @@ Definition transform_atom (a : tatom) (x : src) : src :=
   | TFilter p => SFilter (lf_filter p) cs0 x
   | TRun g => SRun g cs0 x
   | TReplace sub => SLines (lf_replace sub) false None false x
+  | TStrip v => SLines (lf_strip_of v) false None false x
   end.
 
 (** SequenceStringTransformer.transform: the operands that are not the identity transformer, in order
